@@ -220,6 +220,7 @@ fn tag_index(conds: &[(Ent, u16)], enabled: &[StatusKind]) -> u8 {
 
 async fn scenario(c: C32Case) -> Hist {
     let mut h = Hist::default();
+    crate::common::limit_steps();
     let f = factory();
     let deadline = DeadlineQosPolicy { period: c.deadline.map(|p| dk_ms(p as u64 * 100)).unwrap_or(DurationKind::Infinite) };
     let reliable = ReliabilityQosPolicy { kind: ReliabilityQosPolicyKind::Reliable, max_blocking_time: dk_ms(100) };
@@ -873,8 +874,8 @@ pub fn main(ctx: &Ctx) {
     campaign(
         ctx,
         Campaign {
-            total_cases: ctx.pick(1_000, 40_000),
-            max_shrink_iters: 300,
+            total_cases: ctx.pick(1_500, 25_000),
+            max_shrink_iters: 200,
             limits: Limits { cpu_s: 30, wall_s: 120, as_bytes: 4 << 30 },
             meta: Meta {
                 rule: "1-3 status conditions of {reliable reader R1, best-effort reader R2 with max_samples 1, writer W, subscriber S} with generated enabled masks, attached to 1-2 wait sets; generated sequences of wait(timeout) calls (concurrent tasks), writes (DATA_AVAILABLE / DATA_ON_READERS / SAMPLE_REJECTED), matching endpoint creation/deletion (SUBSCRIPTION/PUBLICATION_MATCHED), deadline misses through time advances, set_enabled_statuses, and clearing reads (take/read, get_*_matched_status, get_offered_deadline_missed_status); the run queue is permuted by a schedule tape (16 choices per operation); non-trivial = some wait was pending while a status was raised or an attached condition's mask was changed; distinct = hash of the case",
